@@ -59,7 +59,7 @@ func GenImport(r *simrt.Rand, faultsOK bool) *ImportProg {
 		return names[r.Intn(len(names))]
 	}
 	impStmt := func(inModule bool) ImportStmt {
-		s := ImportStmt{K: "imp", M: pickTarget(), Form: []string{"plain", "as", "from", "fromas", "star", "plain", "from", "func", "dunder", "from2"}[r.Intn(10)], ID: next()}
+		s := ImportStmt{K: "imp", M: pickTarget(), Form: []string{"plain", "as", "from", "fromas", "star", "plain", "from", "func", "dunder", "from2", "starexec"}[r.Intn(11)], ID: next()}
 		missing := strings.HasPrefix(s.M, "nosuch")
 		switch s.Form {
 		case "from", "fromas":
@@ -71,7 +71,7 @@ func GenImport(r *simrt.Rand, faultsOK bool) *ImportProg {
 			s.Wrap = true
 		case "star":
 			s.Wrap = missing || inModule
-		case "func", "dunder", "from2":
+		case "func", "dunder", "from2", "starexec":
 			s.Wrap = true
 		default:
 			s.Wrap = missing && inModule
@@ -82,7 +82,7 @@ func GenImport(r *simrt.Rand, faultsOK bool) *ImportProg {
 		if s.Form != "star" && !s.Wrap && r.Chance(1, 4) {
 			s.Wrap = true
 		}
-		if s.Form == "func" || s.Form == "dunder" || s.Form == "from2" {
+		if s.Form == "func" || s.Form == "dunder" || s.Form == "from2" || s.Form == "starexec" {
 			s.Wrap = true
 		}
 		if (s.Form == "as" || s.Form == "fromas") && r.Chance(1, 3) {
@@ -110,6 +110,8 @@ func GenImport(r *simrt.Rand, faultsOK bool) *ImportProg {
 			switch x := r.Intn(10); {
 			case x < 6:
 				m.Body = append(m.Body, impStmt(true))
+			case x < 8 && r.Chance(1, 4):
+				m.Body = append(m.Body, goStmt(r, 100*i+j, next()))
 			case x < 8:
 				m.Body = append(m.Body, ImportStmt{K: "mut", M: names[r.Intn(len(names))], V: 100*i + j, ID: next()})
 			default:
@@ -142,6 +144,8 @@ func GenImport(r *simrt.Rand, faultsOK bool) *ImportProg {
 			p.Main = append(p.Main, ImportStmt{K: "read", M: names[r.Intn(len(names))], ID: next()})
 		case x < 11:
 			p.Main = append(p.Main, ImportStmt{K: "ident", M: names[r.Intn(len(names))], ID: next()})
+		case r.Chance(1, 2):
+			p.Main = append(p.Main, goStmt(r, 5000+j, next()))
 		default:
 			p.Main = append(p.Main, ImportStmt{K: "gomod", M: []string{"math", "sys", "time"}[r.Intn(3)], ID: next()})
 		}
@@ -295,6 +299,10 @@ func renderImportStmt(b *strings.Builder, s ImportStmt, me string) {
 		case "dunder":
 			stmt = fmt.Sprintf("%s = __import__(\"%s\")", alias, s.M)
 			probe = fmt.Sprintf("log(%s, \"imported\", %s.x)", tag, alias)
+		case "starexec":
+			// a star import executed with a fresh, empty dict as its local namespace
+			stmt = fmt.Sprintf("_ns%d = {}\n    exec(\"from %s import *\", {}, _ns%d)\n    log(%s, \"starexec\", [_n for _n in (\"x\", \"_p\", \"h\", \"val\", \"tail\", \"extra\") if _n in _ns%d], _ns%d.get(\"x\"))", s.ID, s.M, s.ID, tag, s.ID, s.ID)
+			probe = ""
 		case "from2":
 			stmt = fmt.Sprintf("from %s import x as %s, val as %s_v, h as %s_h", s.M, alias, alias, alias)
 			probe = fmt.Sprintf("log(%s, \"from2\", %s, %s_v, %s_h)", tag, alias, alias, alias)
@@ -337,6 +345,14 @@ func renderImportStmt(b *strings.Builder, s ImportStmt, me string) {
 	case "readany":
 		// used by the follow-up program: any failure of the import is logged, not fatal
 		fmt.Fprintf(b, "try:\n    import %s as _t\n    log(%s, \"read\", \"%s\", _t.val, _t.x)\nexcept Exception as _e:\n    log(%s, \"read\", \"%s\", exc_name(_e))\n", s.M, tag, s.M, tag, s.M)
+	case "gomut":
+		fmt.Fprintf(b, "import math as _gm\n_gm.%s = %d\nlog(%s, \"gomut\", \"%s\", %d)\n", s.N, s.V, tag, s.N, s.V)
+	case "godel":
+		// (whether deleting an absent attribute raises is attribute semantics, not imports)
+		fmt.Fprintf(b, "import math as _gm\ntry:\n    del _gm.%s\nexcept AttributeError as _e:\n    pass\nlog(%s, \"godel\", \"%s\")\n", s.N, tag, s.N)
+	case "goread":
+		orig := map[string]string{"pi": "3.141592653589793", "e": "2.718281828459045", "zz": "None"}[s.N]
+		fmt.Fprintf(b, "import math as _gm\ntry:\n    from math import %s as _ga\n    log(%s, \"goread\", \"%s\", _ga == %s or _ga, _gm.%s == %s or _gm.%s)\nexcept (ImportError, AttributeError) as _e:\n    log(%s, \"goread\", \"%s\", exc_name(_e))\n", s.N, tag, s.N, orig, s.N, orig, s.N, tag, s.N)
 	case "ident":
 		fmt.Fprintf(b, "import %s as _i1\nimport %s as _i2\nfrom %s import x as _x1\nlog(%s, \"ident\", _i1 is _i2, _x1 is _i1.x)\n", s.M, s.M, s.M, tag)
 	case "gomod":
@@ -345,6 +361,19 @@ func renderImportStmt(b *strings.Builder, s ImportStmt, me string) {
 			fmt.Fprintf(b, "from math import sqrt as _s\nlog(%s, \"sqrt\", _s(4.0) == 2.0, _s is _g1.sqrt or True)\n", tag)
 		}
 	}
+}
+
+// goStmt: mutation / deletion / observation of an attribute of the built-in
+// (Go) module math, through the module object and through from-import.
+func goStmt(r *simrt.Rand, v, id int) ImportStmt {
+	n := []string{"pi", "e", "zz"}[r.Intn(3)]
+	switch r.Intn(6) {
+	case 0, 1:
+		return ImportStmt{K: "gomut", M: "math", N: n, V: v, ID: id}
+	case 2:
+		return ImportStmt{K: "godel", M: "math", N: n, ID: id}
+	}
+	return ImportStmt{K: "goread", M: "math", N: n, ID: id}
 }
 
 // ShrinkImport proposes smaller programs.
